@@ -43,7 +43,29 @@ def record(ctx, binp, label, rounds, gomaxprocs, shard):
     return path
 
 
+IMPL_INVS = ["NoOverlap", "SfWaiterResult", "SfUnregisteredOnReturn", "LcOwnResult", "AtMostOnce"]
+
+
+def mc_impl(ctx):
+    """Mechanism-level models of flightGroup / lockedGroup (mutex regions, WaitGroup, map): every
+    interleaving of a small configuration satisfies the call-level contract and terminates; a
+    deliberately broken variant must be rejected (vacuity guard)."""
+    confs = [('{1,2,3}', '{"a"}', 2), ('{1,2}', '{"a","b"}', 2)] if ctx.quick else [('{1,2,3}', '{"a","b"}', 2), ('{1,2,3,4}', '{"a"}', 1)]
+    for mode in ("sf", "lc"):
+        for i, (procs, keys, mcalls) in enumerate(confs):
+            K = dict(Procs=procs, Keys=keys, MaxCalls=mcalls, Mode='"%s"' % mode, Variant='"code"')
+            cfg = core.render_cfg(spec="Spec", constants=K, invariants=IMPL_INVS, properties=["Terminates"])
+            ctx.tlc("SingleFlightImpl", cfg, constants=K, name="impl-%s-%d" % (mode, i), timeout=2400)
+        K = dict(Procs="{1,2}", Keys='{"a"}', MaxCalls=1, Mode='"%s"' % mode, Variant='"unregister-early"')
+        cfg = core.render_cfg(spec="Spec", constants=K, invariants=IMPL_INVS)
+        r = ctx.tlc("SingleFlightImpl", cfg, constants=K, name="impl-%s-broken" % mode, timeout=600, allow_violation=True)
+        if r.violated != "NoOverlap":
+            raise core.Infra("vacuity guard: the broken variant of SingleFlightImpl (%s) was not rejected (got %r)" % (mode, r.violated))
+        ctx.notes["impl_%s_broken_variant_rejected_by" % mode] = r.violated
+
+
 def run(ctx):
+    mc_impl(ctx)
     binp = ctx.go_build(PKG, OVERLAY, race=True, name="c18drv")
     plans = [(30, 4, 0), (30, 16, 1), (15, 1, 2)] if ctx.quick else [(300, 4, 0), (300, 16, 1), (150, 1, 2), (300, 2, 3), (300, 8, 4)]
     for rounds, gmp, shard in plans:
